@@ -54,10 +54,9 @@ Fixpoint crlf_free (f : str) : bool :=
   | c :: r => negb ((c =? 13) && match r with d :: _ => d =? 10 | [] => false end) && crlf_free r
   end.
 
-(* a record has at least one field and is not a single empty field (that is
-   written as a blank line, which is no record) *)
+(* a record has at least one field *)
 Definition csv_row_ok (r : list str) : Prop :=
-  r <> [] /\ r <> [[]] /\ Forall (fun f => crlf_free f = true) r.
+  r <> [] /\ Forall (fun f => crlf_free f = true) r.
 
 Fixpoint same_length (n : nat) (rows : list (list str)) : bool :=
   match rows with
@@ -137,9 +136,10 @@ Definition lua_is_name (s : str) : bool :=
 (* ---- .properties: the domain on which the magiconair writer is faithful.
    A key is non-empty, holds no equals sign (the writer escapes only space
    and colon) and does not start with a comment character; a value does not
-   start with a space (leading blanks are skipped by every reader); no value
-   holds a dollar-brace (the library would try to expand it).  The key/value
-   separator is blanks, one of colon / equals, blanks. ---- *)
+   start with a space (leading blanks are skipped by every reader).  The
+   key/value separator is blanks, one of colon / equals, blanks.  (A
+   dollar-brace in a value is data: expansion is disabled on both sides,
+   repaired in /repo.) ---- *)
 Definition pws (c : N) : bool := (c =? 32) || (c =? 12) || (c =? 9).
 
 Definition props_key_ok (k : str) : bool :=
@@ -151,12 +151,6 @@ Definition props_key_ok (k : str) : bool :=
 Definition props_value_ok (v : str) : bool :=
   match v with c :: _ => negb (c =? 32) | [] => true end.
 
-Fixpoint no_dollar_brace (v : str) : bool :=
-  match v with
-  | [] => true
-  | c :: r => negb ((c =? 36) && match r with d :: _ => d =? 123 | [] => false end) && no_dollar_brace r
-  end.
-
 Fixpoint props_sep_tail (s : str) : bool :=      (* after the leading blanks *)
   match s with
   | [] => false
@@ -165,4 +159,4 @@ Fixpoint props_sep_tail (s : str) : bool :=      (* after the leading blanks *)
 Definition props_sep_ok (sep : str) : bool := props_sep_tail sep.
 
 Definition props_entry_ok (kv : str * str) : Prop :=
-  props_key_ok (fst kv) = true /\ props_value_ok (snd kv) = true /\ no_dollar_brace (snd kv) = true.
+  props_key_ok (fst kv) = true /\ props_value_ok (snd kv) = true.
